@@ -380,15 +380,20 @@ def _explore_orders(acc, base_case, tier, judge_fn, order_set=None):
 
 
 # ------------------------------------------------------------------------------------------------ histories / several BAMs
-def _renamed_copy(src, dst, suffix):
-    """copy of a BAM in which every cell (SM) gets a suffix: a second library with disjoint cells"""
+def _renamed_copy(src, dst, suffix, only=None):
+    """copy of a BAM in which the cells (SM) listed in `only` (None: every cell) get a suffix: a second library whose cells
+    are disjoint from / partly shared with / the same as those of the first"""
     import pysam
     with pysam.AlignmentFile(src) as f, pysam.AlignmentFile(dst, 'wb', header=f.header) as o:
         for r in f.fetch(until_eof=True):
-            if r.has_tag('SM'):
+            if r.has_tag('SM') and (only is None or r.get_tag('SM') in only):
                 r.set_tag('SM', r.get_tag('SM') + suffix)
             o.write(r)
     pysam.index(dst)
+
+
+def _renamed(cell, only):
+    return cell + '_L2' if (only is None or cell in only) else cell
 
 
 def _run_histories(acc, tier):
@@ -419,16 +424,19 @@ def _run_histories(acc, tier):
                 viols = [(s_.replace('obtain_counts', 'obtain_counts:bam-replaced-at-same-path', 1), d) for s_, d in judge(case, got, err)]
                 _report(acc, case, viols, len(sch.log[0]['order']) if sch.log else 0, True, f'history:path-reused:step{step}')
         # (b) two libraries
-        lib2 = os.path.join(work, 'lib2.bam')
-        _renamed_copy(_bam(specA), lib2, '_L2')
-        for bpj in (1, 2, 5):
+        # the second library holds the same records with: every cell renamed (disjoint cells) / no cell renamed (the same cells
+        # sequenced twice, e.g. two lanes) / one cell renamed (partly shared). Every record of both files counts once.
+        for libkind, only in (('two-libraries', None), ('two-libraries-same-cells', ()), ('two-libraries-shared-cells', ('cellB',))):
+          lib2 = os.path.join(work, f'lib2_{libkind}.bam')
+          _renamed_copy(_bam(specA), lib2, '_L2', only)
+          for bpj in (1, 2, 5):
             base = {'fn': 'obtain_counts', 'bam': list(specA), 'bin_size': 50, 'bins_per_job': bpj, 'min_mq': 50,
-                    'max_fragment_size': 100, 'key_tags': None, 'kwargs': None, 'threads': 4, 'history': 'two-libraries'}
+                    'max_fragment_size': 100, 'key_tags': None, 'kwargs': None, 'threads': 4, 'history': libkind}
             want1, total1, _ = _expected(specA, 50, 50, None)
             want = {k: dict(v) for k, v in want1.items()}
             for k, row in want1.items():
                 for cell, n in row.items():
-                    want[k][cell + '_L2'] = n
+                    want[k][_renamed(cell, only)] = want[k].get(_renamed(cell, only), 0) + n
             n_jobs = None
             orders = [None]
             tried = 0
@@ -448,15 +456,15 @@ def _run_histories(acc, tier):
                     orders = [list(o) for o in near_orders(n_jobs, 1) if list(o) != list(range(n_jobs))][:12] + [list(reversed(range(n_jobs)))]
                 viols = []
                 if err is not None:
-                    viols.append((f'obtain_counts:two-libraries:exception:{type(err).__name__}', repr(err)))
+                    viols.append((f'obtain_counts:{libkind}:exception:{type(err).__name__}', repr(err)))
                 else:
                     matrix, bad = _canon_to_matrix(got, 0)
                     under, over = O.diff(matrix, want)
                     if under or over:
                         clause = 'undercount' if under and not over else 'overcount' if over and not under else 'miscount'
-                        viols.append((f'obtain_counts:two-libraries:{clause}',
+                        viols.append((f'obtain_counts:{libkind}:{clause}',
                                       {'expected_total': 2 * total1, 'got_total': O.total(matrix), 'under': under[:3], 'over': over[:3]}))
-                _report(acc, case, viols, n_jobs or 0, True, f'history:two-libraries:bpj={bpj}')
+                _report(acc, case, viols, n_jobs or 0, True, f'history:{libkind}:bpj={bpj}')
                 tried += 1
     finally:
         shutil.rmtree(work, ignore_errors=True)
